@@ -103,6 +103,26 @@ pub struct Http1Parser {
     config: Http1Config,
 }
 
+/// Bytes of the message head: everything up to and including the first blank line.
+/// What follows is the body, which is never interpreted (it may be binary).
+fn head_bytes(data: &[u8]) -> &[u8] {
+    let crlf = data
+        .windows(4)
+        .position(|w| w == b"\r\n\r\n")
+        .map(|p| p.saturating_add(4));
+    let lf = data
+        .windows(2)
+        .position(|w| w == b"\n\n")
+        .map(|p| p.saturating_add(2));
+    let end = match (crlf, lf) {
+        (Some(a), Some(b)) => a.min(b),
+        (Some(a), None) => a,
+        (None, Some(b)) => b,
+        (None, None) => data.len(),
+    };
+    data.get(..end).unwrap_or(data)
+}
+
 impl Http1Parser {
     pub fn new() -> Self {
         Self { config: Http1Config::default() }
@@ -114,7 +134,8 @@ impl Http1Parser {
     pub fn parse_request(&self, data: &[u8]) -> Result<Option<Http1Request>, Http1ParseError> {
         let start_time = Instant::now();
 
-        let data_str = std::str::from_utf8(data).map_err(|_| Http1ParseError::InvalidUtf8)?;
+        let data_str =
+            std::str::from_utf8(head_bytes(data)).map_err(|_| Http1ParseError::InvalidUtf8)?;
 
         if !data_str.contains("\r\n\r\n") && !data_str.contains("\n\n") {
             return Ok(None);
@@ -206,7 +227,8 @@ impl Http1Parser {
     pub fn parse_response(&self, data: &[u8]) -> Result<Option<Http1Response>, Http1ParseError> {
         let start_time = Instant::now();
 
-        let data_str = std::str::from_utf8(data).map_err(|_| Http1ParseError::InvalidUtf8)?;
+        let data_str =
+            std::str::from_utf8(head_bytes(data)).map_err(|_| Http1ParseError::InvalidUtf8)?;
 
         if !data_str.contains("\r\n\r\n") && !data_str.contains("\n\n") {
             return Ok(None);
